@@ -243,7 +243,7 @@ func checkC11(c *Ctx) {
 	}
 	// ---- R11a
 	lf := func(call *ast.CallExpr) []string {
-		if cal := ep.CalleeOf(call); cal != nil && cal.Name() == "writeErrorWithHandler" {
+		if cal := ep.CalleeOf(call); cal != nil && ep.RecName(cal) == "writeErrorWithHandler" {
 			return []string{"X"}
 		}
 		if isDispatch(ep, call) {
@@ -336,7 +336,7 @@ func checkC11(c *Ctx) {
 		if !ok {
 			return true
 		}
-		if cal := ep.CalleeOf(call); cal == nil || cal.Name() != "writeErrorWithHandler" || len(call.Args) < 3 {
+		if cal := ep.CalleeOf(call); cal == nil || ep.RecName(cal) != "writeErrorWithHandler" || len(call.Args) < 3 {
 			return true
 		}
 		nW++
